@@ -30,4 +30,17 @@ def run(ctx):
     ev = [(ctx.seed * 131 + 577 + i * 48) % 1152 for i in range(1 if ctx.tier == "quick" else 24)]
     fam = fam + [("evade-%d" % sl, "Families_pos.cfg", {"VERIF_FAMILY": "evade", "VERIF_VARIANT": "x", "VERIF_FILE": 0, "VERIF_SLICE": sl, "VERIF_SLICES": 1152}) for sl in ev]
     board_pipeline(ctx, bfs, walks, fam)
+    # second sentence of the property in volume: moved board against the same position rebuilt from its text
+    # (equality of two observations of the implementation - no oracle, implementation speed)
+    from vlib import NCPU
+    shards = max(1, NCPU - 2)
+    res = ctx.pmap(lambda i: ctx.harness(["sweep-twin", "--seed", ctx.seed, "--shard", i, "--walks", 150 if ctx.tier == "quick" else 3000, "--plies", 60]), list(range(shards)))
+    npos = 0
+    for r in res:
+        ctx.absorb(r)
+        if r["summary"]:
+            npos += r["summary"]["counts"].get("positions", 0)
+            ctx.cov["distinct_nontrivial"] += r["summary"]["nontrivial"]
+    ctx.cov["evaluations"] += npos
+    ctx.cov["steps"].append({"step": "moved-vs-rebuilt sweep", "positions": npos})
     sys_model_check(ctx, hot, 1 if ctx.tier == "quick" else 2)
